@@ -84,6 +84,8 @@ type Pong struct {
 	// TerminateDelay: how long the termination hook takes (it is counted once
 	// it has completed)
 	TerminateDelay time.Duration
+	// ActivateDelay: how long the activation takes
+	ActivateDelay time.Duration
 }
 
 func delayOf(tag string) time.Duration {
@@ -98,6 +100,9 @@ func delayOf(tag string) time.Duration {
 
 // Activate stores the helper.
 func (p *Pong) Activate(activation bus.Activation, helper pong.PingPongSignalHelper) error {
+	if p.ActivateDelay > 0 {
+		time.Sleep(p.ActivateDelay)
+	}
 	p.mu.Lock()
 	p.Helper = helper
 	p.Activation = activation
